@@ -270,6 +270,10 @@ CATALOGUE += [
     ("while_cond_return_missing_after", "nm = fn(a: int) -> int {\n while a > 100 {\n  return 1\n }\n}\nx = nm(1)\n" + T("x")),
     ("from_loop_return_missing_after", "nm = fn(a: int) -> int {\n from 0 to a {\n  return 1\n }\n}\nx = nm(0)\n" + T("x")),
     ("else_if_without_else_missing_return", "nm = fn(a: int) -> int {\n if a > 1 {\n  return 1\n } else if a > 0 {\n  return 2\n }\n}\nx = nm(0)\n" + T("x")),
+    # `modify` accepted for a variable the same function declared in an enclosing block
+    ("modify_own_variable_from_if_block", "fd = fn(limit: int) -> bool {\n done = false\n i = 0\n while i < limit {\n  if i == 3 {\n   modify done = true\n  }\n  i = i + 1\n }\n return done\n}\n" + T("fd(10)") + T("fd(2)")),
+    ("modify_module_variable_from_module_block", "mx = 1\nif mx == 1 {\n modify mx = 2\n}\n" + T("mx")),
+    ("modify_own_variable_in_closure_that_captures_another", "cs = \"a\"\ng = fn() -> int {\n n = 0\n if cs == \"a\" {\n  modify n = 5\n  modify cs = \"b\"\n }\n return n\n}\n" + T("g()") + T("cs")),
     ("self_param_other_class_instance", "class Sh {\n s: int\n constructor(self, s: int) {\n  self.s = s\n }\n fn same(self, o: Self) -> bool {\n  return self.s == o.s\n }\n}\nclass Cv {\n w: int\n constructor(self) {\n  self.w = 1\n }\n fn go(self) -> bool {\n  q = Sh(3)\n  return q.same(self)\n }\n}\nc = Cv()\n" + T("c.go()")),
     ("class_param_other_class_instance", "class Sh {\n s: int\n constructor(self, s: int) {\n  self.s = s\n }\n}\nclass Cv {\n w: int\n constructor(self) {\n  self.w = 1\n }\n}\ng = fn(o: Sh) -> int {\n return o.s\n}\n" + T("g(Cv())")),
 ]
